@@ -66,10 +66,10 @@ CLAIMED = {
                 "(get_morph_marker contract) and to freeze the number; format_and_value is proved to render digits followed by the marker. COMPOSITION, proved for English "
                 "(every rank n in [1, 10^12): the spelling of n with its last word in ordinal form - unit, teen, ten, hundredth, thousandth, millionth, billionth; hyphenated or not) "
                 "Spanish (every rank in [1, 1999] in the four gender/number forms, each word inflected alike; the bare 'segundo(s)', which the language reads as the time unit, "
-                "excepted) and French (every rank in [1, 999 999], separate words: 'premier', otherwise the cardinal's words with the last one in its -ième form - vingt et unième, "
+                "excepted), Portuguese (every rank in [1, 1999] in the four gender/number forms: milésimo, centésimo .., décimo .., primeiro ..) and French (every rank in [1, 999 999], separate words: 'premier', otherwise the cardinal's words with the last one in its -ième form - vingt et unième, "
                 "quatre vingt dixième, deux centième, trois millième - proved by swapping the last word of the cardinal's trace: a word and its -ième form have the same grammar row but for the marker): the words are accepted as one number, the builder holds exactly the digits of n and the marker of the form (st / nd / rd / th; the four Spanish markers; er / ème), "
                 "the number is flagged ordinal, and the verified exec driver derives from the contracts of the real exec_group / apply / format_and_value that the text is those digits "
-                "followed by that marker. NOT proved: multi-word ordinals of pt, it, de, nl, French feminine / plural forms and hyphenated French ordinals (bounded evidence only).",
+                "followed by that marker. NOT proved: multi-word ordinals of it, de, nl, French feminine / plural forms and hyphenated French ordinals (bounded evidence only).",
         "note": TRUST + "Found and fixed through these obligations: en 'sixtieth', es 'cuadringentésimo', es 'tercer', fr 'huitantième', it 'sedicesimo', "
                 "'settantunesimo', 'centunesimo' (known_findings.txt).",
         "design_ref": "DESIGN.md §12.3 C04, §13",
